@@ -104,3 +104,26 @@ func (p *VerifWorkerPool) ReadySorted() bool {
 	}
 	return true
 }
+
+// TryCounts is Counts without blocking: ok is false if the pool's lock is held right now.
+func (p *VerifWorkerPool) TryCounts() (workersCount, ready int, mustStop, ok bool) {
+	if !p.wp.lock.TryLock() {
+		return 0, 0, false, false
+	}
+	defer p.wp.lock.Unlock()
+	return p.wp.workersCount, len(p.wp.ready), p.wp.mustStop, true
+}
+
+// AddStalledIdle puts an idle worker into ready whose goroutine is played by the harness: its channel is
+// unbuffered (as with GOMAXPROCS=1) and is read only by TakeNil, i.e. a worker that is slow to take its stop
+// notification. It is not counted in workersCount.
+func (p *VerifWorkerPool) AddStalledIdle() *VerifWorkerChan {
+	ch := &workerChan{ch: make(chan net.Conn), lastUseTime: time.Now()}
+	p.wp.lock.Lock()
+	p.wp.ready = append(p.wp.ready, ch)
+	p.wp.lock.Unlock()
+	return ch
+}
+
+// TakeNil receives from the channel of a worker made by AddStalledIdle; it reports whether nil arrived.
+func (p *VerifWorkerPool) TakeNil(ch *VerifWorkerChan) bool { return <-ch.ch == nil }
